@@ -1,6 +1,7 @@
 use crate::error::{Converter, WRONG_OFFSET};
 use crate::paged_reader::PagedReader;
 use crate::paged_writer::PagedWriter;
+use crate::xml;
 use crate::{Error, Result};
 use roxmltree::Node;
 use std::io::{copy, Read, Seek, Write};
@@ -48,7 +49,7 @@ impl Blob {
     }
 
     pub(crate) fn from_parent_node(tag_name: &str, parent_node: &Node) -> Result<Option<Self>> {
-        if let Some(node) = &parent_node.children().find(|n| n.has_tag_name(tag_name)) {
+        if let Some(node) = &parent_node.children().find(|n| xml::has_name(n, tag_name)) {
             Ok(Some(Self::from_node(node)?))
         } else {
             Ok(None)
